@@ -377,6 +377,72 @@ func c05Config(ctx *core.Ctx, goos, goarch string) {
 	for _, rd := range readers {
 		readerExits(ctx, r, rd, "C05.R6")
 	}
+	// ---- R11: no recursion in the cone ------------------------------------------------
+	// The depth of a recursion in the receive cone is chosen by the peer (one
+	// level per empty frame, per nested element …) and a Go stack overflow is
+	// fatal for the whole process, not recoverable. Static call edges only:
+	// interface dispatch is not followed (a transport wrapping a transport is
+	// not a cycle).
+	ctx.Rule("C05.R11", "no function of the receive cone calls itself, directly or through other functions of the package (a peer-chosen recursion depth overflows the stack, which no recover() catches)", 1)
+	{
+		succ := map[*ssa.Function][]*ssa.Function{}
+		at := map[[2]*ssa.Function]ssa.Instruction{}
+		for _, fn := range cone {
+			for _, c := range ssax.Calls(fn) {
+				if _, isGo := c.Instr.(*ssa.Go); isGo {
+					continue
+				}
+				if g := c.Static; g != nil && inCone[g] && g.Pkg == r.Pkg {
+					succ[fn] = append(succ[fn], g)
+					if at[[2]*ssa.Function{fn, g}] == nil {
+						at[[2]*ssa.Function{fn, g}] = c.Instr
+					}
+				}
+			}
+		}
+		nCyc := 0
+		for _, fn := range cone {
+			if fn.Pkg != r.Pkg {
+				continue
+			}
+			// can fn reach itself?
+			seen := map[*ssa.Function]bool{}
+			stack := append([]*ssa.Function{}, succ[fn]...)
+			cyc := false
+			for len(stack) > 0 {
+				x := stack[len(stack)-1]
+				stack = stack[:len(stack)-1]
+				if x == fn {
+					cyc = true
+					break
+				}
+				if seen[x] {
+					continue
+				}
+				seen[x] = true
+				stack = append(stack, succ[x]...)
+			}
+			if cyc && boundedSelfCall(fn, succ[fn]) {
+				ctx.Discharge("C05.R11", ssax.Name(fn)+" › self-call of depth one", fnPos(r, fn), "the only cycle is a self-call on a fresh buffer of exactly n bytes under the guard n < len(buf): the guard is false in the callee, so the depth is at most one")
+				continue
+			}
+			if cyc {
+				nCyc++
+				pos := fnPos(r, fn)
+				for _, g := range succ[fn] {
+					if g == fn || seen[g] {
+						if in := at[[2]*ssa.Function{fn, g}]; in != nil {
+							pos = r.IPos(in)
+						}
+					}
+				}
+				ctx.Violate("C05.R11", ssax.Name(fn)+" › not recursive", pos, "the function is on a call cycle inside the receive cone: each level of the recursion is paid for by a few received bytes (an empty frame, a nested element), so a peer can drive the goroutine stack to its limit — `fatal error: stack overflow` ends the process and cannot be recovered")
+			}
+		}
+		if nCyc == 0 {
+			ctx.Discharge("C05.R11", "receive cone › no static call cycle", "", sprintf("%d functions, static call edges inside the package", len(cone)))
+		}
+	}
 	// ---- R7 ---------------------------------------------------------------------------
 	for _, fn := range cone {
 		uses := false
@@ -423,4 +489,82 @@ func preString(fn *ssa.Function, p bounds.Pre) string {
 		return sprintf("%s ≥ %s+%d", name(p.A), name(p.B), p.K)
 	}
 	return sprintf("%s ≥ %s", name(p.A), name(p.B))
+}
+
+// boundedSelfCall: fn's only in-cone callee on a cycle is fn itself, and every
+// self-call passes, for the slice parameter b, a fresh make([]T, n) under the
+// dominating guard n < len(b) — in the callee len(b) = n, the guard fails, and
+// the recursion stops after one level.
+func boundedSelfCall(fn *ssa.Function, succs []*ssa.Function) bool {
+	found := false
+	for _, c := range ssax.Calls(fn) {
+		if c.Static != fn {
+			continue
+		}
+		found = true
+		ok := false
+		for i, a := range c.Common.Args {
+			mk, isMk := ssax.Strip(a).(*ssa.MakeSlice)
+			if !isMk || i >= len(fn.Params) {
+				continue
+			}
+			par := fn.Params[i]
+			nKey := ssax.AddrKey(unconv(mk.Len))
+			// a dominating `n < len(par)` on its true edge
+			for b := c.Instr.Block(); b != nil && b.Idom() != nil; b = b.Idom() {
+				d := b.Idom()
+				iff, isIf := d.Instrs[len(d.Instrs)-1].(*ssa.If)
+				if !isIf || d.Succs[0] != b || len(b.Preds) != 1 {
+					continue
+				}
+				bo, isB := iff.Cond.(*ssa.BinOp)
+				if !isB || bo.Op != token.LSS {
+					continue
+				}
+				ln, isCall := unconv(bo.Y).(*ssa.Call)
+				if !isCall {
+					continue
+				}
+				if bi, isBi := ln.Call.Value.(*ssa.Builtin); !isBi || bi.Name() != "len" || ssax.Strip(ln.Call.Args[0]) != ssa.Value(par) {
+					continue
+				}
+				if ssax.AddrKey(unconv(bo.X)) == nKey {
+					ok = true
+				}
+			}
+		}
+		if !ok {
+			return false
+		}
+	}
+	if !found {
+		return false
+	}
+	// no other cycle through fn: every other successor must not reach fn — the
+	// caller established reachability over all successors; accept only when fn
+	// is its own sole cyclic successor
+	for _, g := range succs {
+		if g != fn {
+			for _, c := range ssax.Calls(g) {
+				if c.Static == fn {
+					return false
+				}
+			}
+		}
+	}
+	return true
+}
+
+func unconv(v ssa.Value) ssa.Value {
+	for {
+		switch x := v.(type) {
+		case *ssa.Convert:
+			v = x.X
+			continue
+		case *ssa.ChangeType:
+			v = x.X
+			continue
+		}
+		return v
+	}
 }
